@@ -132,7 +132,7 @@ class OpMachine:
         rest = self.resting(s)
         w = {'submit': 4.0, 'mark': 2.0, 'fill': 3.0 if rest else 0.0, 'cancel': 1.5 if rest else 0.0,
              'cancel_all': 0.3 if rest else 0.0, 'flush': 1.0, 'exit': 3.0 if p.is_open else 0.0,
-             'boundary': 0.4, 'dup': self.spec['p_dup'] * 10 if self.finals() else 0.0,
+             'boundary': 0.15, 'dup': self.spec['p_dup'] * 10 if self.finals() else 0.0,
              'roundtrip': 0.5, 'cancel_then_bigger': 1.0 if (not fut and p.is_open) else 0.0}
         w.update(self.spec.get('weights') or {})
         kind = st.wchoice([(k, v) for k, v in w.items() if v > 0], 'kind')
@@ -153,6 +153,15 @@ class OpMachine:
             return {'op': 'dup', 'what': st.choice(['execute', 'cancel'], 'what'), 'idx': st.randint(0, 50, 'idx')}
         if kind == 'exit':
             q = abs(float(p.qty))
+            if not fut and st.chance(0.8, 'xfree'):
+                # spot: most exits are sized within what is not yet promised to resting sells of the same kind
+                # (the rest probe the rejection rule)
+                dk_ = st.randint(-5, 5, 'xdk')
+                typ_ = 'MARKET' if dk_ == 0 else ('LIMIT' if dk_ > 0 else 'STOP')
+                promised = sum(abs(r.qty) for r in rest if r.side == 'sell' and r.type == ('LIMIT' if typ_ == 'MARKET' else typ_))
+                q = max(0.0, q - promised)
+                if q <= 0:
+                    return {'op': 'mark', 'sym': s, 'k': cur_k}
             mode = st.wchoice([('partial', 0.5), ('full', 0.3), ('oversize', 0.2 if fut else 0.0)], 'xm')
             if mode == 'partial':
                 qq = self.round_qty(q * (0.1 + 0.8 * st.u('xf')))
@@ -189,9 +198,13 @@ class OpMachine:
                 budget = float(self.exch().wallet_balance) * st.choice([0.05, 0.2, 0.5, 0.9], 'frac')
                 q = self.round_qty(budget / max(price, cur_p)) if budget > 0 else 0
             else:
-                q = self.round_qty(abs(float(p.qty)) * st.choice([0.1, 0.3, 0.6, 1.0], 'frac'))
+                free = abs(float(p.qty))
+                if st.chance(0.8, 'sfree'):
+                    promised = sum(abs(r.qty) for r in rest if r.side == 'sell' and r.type == ('LIMIT' if typ == 'MARKET' else typ))
+                    free = max(0.0, free - promised)
+                q = self.round_qty(free * st.choice([0.1, 0.3, 0.6, 1.0], 'frac'))
                 if st.chance(0.3, 'raw'):
-                    q = abs(float(p.qty)) * st.choice([0.25, 0.5, 1.0], 'rawf')
+                    q = free * st.choice([0.25, 0.5, 1.0], 'rawf')
         if fut and p.is_open and ((p.qty > 0) != (side == 'buy')) and st.chance(self.spec.get('p_no_flip', 0.7), 'noflip'):
             # most opposite-side orders stay within the position (a flip is one more event kind, not the main course)
             q = min(q, self.round_qty(abs(float(p.qty)) * st.choice([0.3, 0.6, 1.0], 'nff')) or q)
@@ -368,7 +381,7 @@ class OpMachine:
             return
         o.cancel()
         self.c.count('cancel_then_bigger')
-        q2 = base * (0.7 + 0.6 * op['f2'])    # up to 1.3 x base: sometimes legal, sometimes not
+        q2 = base * (0.55 + 0.6 * op['f2'])    # up to 1.15 x base: mostly legal, sometimes not
         if op['typ'] == 'STOP':
             b.start_profit_at('sell', q2, self.price(s, max(2, k - 3)))
         else:
